@@ -25,6 +25,7 @@ clause → theorem
                                                                   `result_is_final`
 * unknown ids are inert ......................................... `unknown_or_duplicate_inert`
 * duplicated responses are inert ................................ `duplicate_is_unknown`, `duplicate_stays_unknown`
+                                                                  (`reader_removes_on_match` from the source)
 * notifications reusing an in-flight id go only to the subscriber `notify_to_subscriber_only`, `notify_never_delivered`
                                                                   (for a notify-aware client; `ws_is_notify_aware` from the source;
                                                                   the TCP clients have no subscriber and treat every frame as a
@@ -147,6 +148,10 @@ theorem notify_never_delivered (cfg : Cfg) (s : State) (hs : Reachable cfg s) (c
     ((s.calls c).pc = .returned (.resp f) → f.notify = false) ∧
     (Msg.resp f ∈ (s.calls c).chan → f.notify = false) :=
   ⟨fun h => (hs.inv.1.res c f h).2 ha, fun h => (hs.inv.1.chanId c f h).2 ha⟩
+
+/-- Premise of the model's `rmatch` step: the reader *removes* the entry it matched
+(`pending.remove(&id)`, re-extracted for all three clients). -/
+theorem reader_removes_on_match : ∀ cfg ∈ Gen.Mux.all, cfg.matchRemoves = true := by decide
 
 /-- The WebSocket client is notify-aware (fact re-extracted from `spawn_response_loop`). -/
 theorem ws_is_notify_aware : Gen.Mux.wsCfg.notifyAware = true := by decide
